@@ -73,7 +73,9 @@ const prop_def prop_C04 = { "C04", NULL, c04_run, qprog_counter_names,
 	"non-trivial: >=2 items completed, at least one pre-emption/stall inside the concurrent queue's atomics; distinct = distinct schedule signatures among those (runs_with_overlapping_readers reports how often the width accounting was really exercised)" };
 
 /* ---- C05: synchronous forms return after completion (logic half; see DESIGN 3.5) ---- */
+extern void prims_run_for_c05(void);
 static void c05_run(void) {
+	if (g_chance(3, 10)) { prims_run_for_c05(); return; }
 	qgen g; qgen_defaults(&g);
 	g.oracles = O_SYNCRET;
 	g.opmask |= (1u << OP_BARRIER_AAW) | (1u << OP_APPLY);
